@@ -688,6 +688,36 @@ fn check_history(prog: &Program, all: &[Rec], viol: &mut Vec<Violation>) {
             _ => {}
         }
     }
+    // expiry under concurrency (conservative: flagged only when every reading that could
+    // have extended the entry's life is certainly too old)
+    for r in all {
+        let (k, id) = match (&r.op, &r.obs) {
+            (TOp::Get(k), Obs::Val(Some((id, _)))) => (*k, *id),
+            _ => continue,
+        };
+        let src = match inserts.iter().find(|i| i.vid == id) {
+            Some(i) => i,
+            None => continue,
+        };
+        if let Some(d) = prog.cfg.ttl_ms() {
+            if r.t0 >= src.t1 + d {
+                viol.push(Violation { prop: "C05", sig: "sched:visible-past-ttl".into(), detail: format!("T{}#{} get({k}) at reading >= {}ms returned a value inserted at <= {}ms with ttl {d}ms", r.thread, r.idx, r.t0, src.t1), witness: String::new() });
+            }
+        }
+        if let Some(d) = prog.cfg.tti_ms() {
+            // every insert of k and every earlier successful get of k that could precede this get
+            let latest_access = all
+                .iter()
+                .filter(|x| !std::ptr::eq(*x, r) && !after(x, r))
+                .filter(|x| matches!(x.op, TOp::Ins(k2, _) if k2 == k) || (matches!(x.op, TOp::Get(k2) if k2 == k) && matches!(x.obs, Obs::Val(Some(_)))))
+                .map(|x| if x.completed { x.t1 } else { i64::MAX })
+                .max()
+                .unwrap_or(i64::MAX);
+            if latest_access != i64::MAX && r.t0 >= latest_access + d {
+                viol.push(Violation { prop: "C06", sig: "sched:visible-past-tti".into(), detail: format!("T{}#{} get({k}) at reading >= {}ms returned a value whose latest possible access was at <= {latest_access}ms with tti {d}ms", r.thread, r.idx, r.t0), witness: String::new() });
+            }
+        }
+    }
     // iteration beside writers: every key resident (and live) throughout is yielded
     if prog.cfg.cap.is_none() && prog.cfg.tti.is_none() {
         for r in all {
@@ -1041,6 +1071,40 @@ pub fn family(name: &str, tier: &str) -> Vec<Program> {
                 out.push(Program { cfg: base(Some(1), None), prefix: vec![Op::Ins(0, 1), Op::Sync, Op::Get(1), Op::Ins(0, 1), Op::Ins(1, 1)], threads: th.clone() });
                 out.push(Program { cfg: base(Some(1), None), prefix: vec![Op::Ins(0, 1), Op::Sync, Op::Get(1), Op::Get(1), Op::Ins(1, 1)], threads: th.clone() });
                 out.push(Program { cfg: base(Some(1), None), prefix: vec![Op::Ins(0, 1), Op::Sync, Op::Get(1), Op::Ins(1, 1), Op::Ins(0, 1)], threads: th.clone() });
+            }
+        }
+        // the same idea with a weigher (weight-changing updates racing maintenance)
+        "c02w" => {
+            let alpha = [TOp::Ins(0, 1), TOp::Ins(0, 2), TOp::Get(0), TOp::Inv(0), TOp::Ins(1, 1), TOp::Sync];
+            let ss = seqs(&alpha, 2);
+            let prefixes: Vec<Vec<Op>> = vec![vec![Op::Ins(0, 1), Op::Sync], vec![Op::Ins(0, 2), Op::Sync, Op::Get(1), Op::Ins(1, 1)]];
+            for pre in &prefixes {
+                for (i, a) in ss.iter().enumerate() {
+                    for b in ss.iter().skip(i) {
+                        if !conflicting(a, b) || a.len() + b.len() > if thorough { 4 } else { 3 } {
+                            continue;
+                        }
+                        let mut c = base(Some(2), None);
+                        c.weigher = true;
+                        out.push(Program { cfg: c, prefix: pre.clone(), threads: vec![a.clone(), b.clone()] });
+                    }
+                }
+            }
+        }
+        // ... and with time-to-idle and a moving clock
+        "c02t" => {
+            let alpha = [TOp::Ins(0, 1), TOp::Get(0), TOp::Adv(1), TOp::Inv(0), TOp::Sync];
+            let ss = seqs(&alpha, 2);
+            for (i, a) in ss.iter().enumerate() {
+                for b in ss.iter().skip(i) {
+                    let uses_clock = a.iter().chain(b.iter()).any(|o| matches!(o, TOp::Adv(_)));
+                    if !(conflicting(a, b) || uses_clock) || a.len() + b.len() > if thorough { 4 } else { 3 } {
+                        continue;
+                    }
+                    for cap in [None, Some(1u64)] {
+                        out.push(Program { cfg: base(cap, Some(2)), prefix: vec![Op::Ins(0, 1), Op::Sync, Op::Adv(1)], threads: vec![a.clone(), b.clone()] });
+                    }
+                }
             }
         }
         // invalidation against readers / writers, incl. clock movement
